@@ -371,6 +371,22 @@ def _eval_inner(case):
                 e.estimate = I.mk_pose(pk, [x + 0.25 for x in zl])
                 if not float(e.calc_chi2()) > 0.0:
                     msgs.append("landmark measurement off by 0.25 gives chi2 <= 0 with SPD Omega")
+                # a tiny but well-resolved disagreement is still a disagreement: error ~ delta, chi2 ~ delta^2 Omega_kk
+                if scl < 20.0 and name == "I":
+                    for dlt in (1e-7, 1e-10):
+                        zz = list(zl)
+                        zz[0] = zz[0] - dlt
+                        e.estimate = I.mk_pose(pk, zz)
+                        big = 1e18
+                        e.information = big * np.array(om, dtype=float)
+                        err = np.asarray(e.calc_error(), dtype=float)
+                        c2 = float(e.calc_chi2())
+                        nops += 1
+                        step = abs(zl[0] - (zl[0] - dlt))  # the representable disagreement
+                        if step > 0 and not (abs(err[0] - step) <= 1e-3 * step + 4e-16 * scl):
+                            msgs.append("landmark measurement off by %.3g: error component is %.3g (a small disagreement must not be flushed to zero)" % (dlt, err[0]))
+                        if step > 1e-15 * scl * 1e3 and not c2 > 0.0:
+                            msgs.append("landmark measurement off by %.3g with information 1e18: chi2 = %r" % (dlt, c2))
         return msgs, ratio, True, nops, []
     if t == "linearity":
         kind = case["kind"]
